@@ -287,6 +287,30 @@ Proof.
     + intros a _ _ b y Hb Hby. apply (RestIn b Hb). eapply AllValidTop; eauto.
 Qed.
 
+(* without any hypothesis on the ids: [top] has the right length and is a sub-multiset of the rung *)
+Lemma get_top_list_sub : forall m rung new_len top rest,
+  get_top_list m rung new_len = (top, rest) -> (new_len <= length rung)%nat ->
+  length top = new_len /\ exists rest', Permutation (top ++ rest') (map fst rung).
+Proof.
+  intros m rung k top rest G Hk. unfold get_top_list in G.
+  set (rv := valid_entries rung) in *.
+  assert (Pvi := valid_invalid_perm rung). fold rv in Pvi.
+  assert (Lvi := valid_invalid_length rung). fold rv in Lvi.
+  destruct (Nat.leb k (length rv)) eqn:E.
+  - apply Nat.leb_le in E. set (srt := sort_stable m rv) in *.
+    assert (Ps : Permutation srt rv) by apply sort_stable_perm.
+    assert (Top : top = map fst (firstn k srt)) by (inversion G; reflexivity).
+    split.
+    + rewrite Top, map_length, firstn_length. apply Permutation_length in Ps. lia.
+    + exists (map fst (skipn k srt) ++ invalid_ids rung). rewrite Top, app_assoc, <- map_app, firstn_skipn.
+      eapply Permutation_trans; [|exact Pvi]. apply Permutation_app_tail. apply Permutation_map. exact Ps.
+  - apply Nat.leb_gt in E.
+    assert (Top : top = map fst rv ++ firstn (k - length rv) (invalid_ids rung)) by (inversion G; reflexivity).
+    split.
+    + rewrite Top, app_length, map_length, firstn_length. lia.
+    + exists (skipn (k - length rv) (invalid_ids rung)). rewrite Top, <- app_assoc, firstn_skipn. exact Pvi.
+Qed.
+
 (* ======================================================================== *)
 (* Part 2: list helpers                                                      *)
 (* ======================================================================== *)
@@ -339,6 +363,18 @@ Proof.
   - tauto.
   - rewrite IH. split; intros [H|H]; auto; left; congruence.
   - rewrite IH. split; [auto|]. intros [H|H]; [discriminate|exact H].
+Qed.
+
+Lemma somes_app : forall {A} (a b : list (option A)), somes (a ++ b) = somes a ++ somes b.
+Proof. induction a as [|[x|] a IH]; intro b; simpl; auto. rewrite IH. reflexivity. Qed.
+
+Lemma somes_perm : forall {A} (a b : list (option A)), Permutation a b -> Permutation (somes a) (somes b).
+Proof.
+  intros A a b P. induction P as [|x l l' P IH|x y l|l l' l'' P1 IH1 P2 IH2]; simpl.
+  - constructor.
+  - destruct x; [constructor|]; exact IH.
+  - destruct x, y; try reflexivity. apply perm_swap.
+  - eapply Permutation_trans; eauto.
 Qed.
 
 Lemma somes_map_Some : forall {A} (l : list A), somes (map Some l) = l.
@@ -562,14 +598,24 @@ Qed.
 
 Definition entry_shape (e : rentry) : nat * Z :=
   match e with Filled sl lv => (length sl, lv) | Future n lv => (n, lv) end.
-Definition occupied (s : slot) : Prop := exists t v, s = (Some t, Some v).
-Definition full_rung (sl : list slot) : Prop := Forall occupied sl /\ NoDup (map fst sl).
+(* a slot without trial id can only hold NaN: the searcher delivered no config for it *)
+Definition none_nan (sl : list slot) : Prop := forall v, In (None, Some v) sl -> v = NaN.
+Definition full_rung (sl : list slot) : Prop :=
+  Forall (fun s => snd s <> None) sl /\ NoDup (somes (map fst sl)) /\ none_nan sl.
+
+(* [strict = true]: the searcher never failed to deliver a config, so every slot that has a value
+   has a trial id.  All invariants below are stated for both settings at once. *)
+Section Strict.
+Variable strict : bool.
+
+Definition no_none (b : bracket) : Prop :=
+  forall k sl lv v, nth_error (rungs b) k = Some (Filled sl lv) -> ~ In (None, Some v) sl.
 
 Record cur_ok (sl : list slot) (ffp : nat) : Prop := mkCurOk {
   co_ffp : (ffp <= length sl)%nat;
   co_free : forall pos s, (ffp <= pos)%nat -> nth_error sl pos = Some s -> snd s = None;
   co_open : exists pos t, nth_error sl pos = Some (t, None);
-  co_occ : forall t v, In (t, Some v) sl -> t <> None;
+  co_nonan : none_nan sl;
   co_nodup : NoDup (somes (map fst sl)) }.
 
 Record BInv (sys : rung_system) (md : mode) (b : bracket) : Prop := mkBInv {
@@ -583,7 +629,8 @@ Record BInv (sys : rung_system) (md : mode) (b : bracket) : Prop := mkBInv {
   bi_open : (current_rung b < length (rungs b))%nat ->
             exists sl lv, nth_error (rungs b) (current_rung b) = Some (Filled sl lv) /\
                           cur_ok sl (first_free_pos b);
-  bi_closed : current_rung b = length (rungs b) -> first_free_pos b = 0%nat }.
+  bi_closed : current_rung b = length (rungs b) -> first_free_pos b = 0%nat;
+  bi_strict : strict = true -> no_none b }.
 
 Lemma binv_cur_ok : forall sys md b sl lv, BInv sys md b ->
   current_rung_and_level b = Ok (sl, lv) -> cur_ok sl (first_free_pos b).
@@ -652,9 +699,12 @@ Proof.
     + lia.
     + intros pos s _ N. apply nth_error_repeat in N. subst. reflexivity.
     + exists 0%nat, None. destruct size; [lia|]. reflexivity.
-    + intros t v I. apply repeat_spec in I. discriminate.
+    + intros v I. apply repeat_spec in I. discriminate.
     + rewrite somes_repeat_none. constructor.
   - simpl. intros. lia.
+  - intros _ k sl0 lv0 v N I. destruct k as [|k]; simpl in N.
+    + inversion N; subst. apply repeat_spec in I. discriminate.
+    + rewrite nth_error_map in N. destruct (nth_error rest k); discriminate.
 Qed.
 
 Definition bump (b : bracket) : bracket :=
@@ -665,7 +715,7 @@ Lemma binv_bump : forall sys md b sl lv, BInv sys md b ->
   BInv sys md (bump b).
 Proof.
   intros sys md b sl lv B C L. destruct (crl_inv _ _ _ C) as [N _].
-  destruct B as [B1 B2 B3 B4 B5 B6 B7].
+  destruct B as [B1 B2 B3 B4 B5 B6 B7 B8].
   constructor; cbn [bump rungs current_rung first_free_pos bmode]; auto.
   - intro Hc. destruct (B6 Hc) as [sl' [lv' [N' CO]]]. rewrite N in N'. inversion N'; subst sl' lv'.
     exists sl, lv. split; [exact N|]. destruct CO as [C1 C2 C3 C4 C5]. constructor; auto.
@@ -702,47 +752,64 @@ Proof.
   - rewrite (upd_same_map fst sl pos (Some t, Some v) (Some t, None) N eq_refl). auto.
 Qed.
 
+(* An accepted answer for a slot: [tr] is the trial id written (None: the searcher delivered no
+   config and the slot is reported as failed, with NaN). *)
 Section Answer.
   Variables (sys : rung_system) (md : mode) (b b' : bracket) (r : slot_in_rung)
-            (sl : list slot) (lv : Z) (out : option (list tid)) (t : Z).
+            (sl : list slot) (lv : Z) (out : option (list tid)) (tr : tid).
   Hypothesis CK : check_rungs sys = true.
   Hypothesis B : BInv sys md b.
   Hypothesis C : current_rung_and_level b = Ok (sl, lv).
   Hypothesis R : bracket_on_result b r = Ok (b', out).
-  Hypothesis TID : trial_id r = Some t.
-  Hypothesis FRESH : nth_error sl (slot_index r) = Some (None, None) -> ~ In t (cur_ids b).
+  Hypothesis TID : trial_id r = tr.
+  Hypothesis FRESH : forall t, tr = Some t -> nth_error sl (slot_index r) = Some (None, None) -> ~ In t (cur_ids b).
+  Hypothesis NANFAIL : tr = None -> metric_val r = Some NaN.
+  Hypothesis STRICT : strict = true -> tr <> None.
 
   Lemma answer_facts :
-    exists t0 v, nth_error sl (slot_index r) = Some (t0, None) /\ (t0 = None \/ t0 = Some t) /\
+    exists t0 v, nth_error sl (slot_index r) = Some (t0, None) /\ (t0 = None \/ t0 = tr) /\
       metric_val r = Some v /\
-      let sl' := upd sl (slot_index r) (Some t, Some v) in
+      let sl' := upd sl (slot_index r) (tr, Some v) in
       NoDup (somes (map fst sl')) /\
-      (forall x, In x (somes (map fst sl')) -> In x (cur_ids b) \/ x = t) /\
-      (forall x w, In (x, Some w) sl' -> x <> None) /\ length sl' = length sl.
+      (forall x, In x (somes (map fst sl')) -> In x (cur_ids b) \/ tr = Some x) /\
+      none_nan sl' /\ length sl' = length sl.
   Proof.
     destruct (bor_inv _ _ _ _ _ _ C R) as [_ [_ [_ [[t0 [N T]] [v [MV _]]]]]].
     rewrite TID in T. exists t0, v. split; [exact N|]. split; [exact T|]. split; [exact MV|].
     assert (CO := binv_cur_ok _ _ _ _ _ B C). cbv zeta.
     assert (CI : cur_ids b = somes (map fst sl)) by (unfold cur_ids; rewrite C; reflexivity).
-    destruct (ids_after_write sl (slot_index r) t0 t v N T) as [ND IN].
-    { intros ->. rewrite <- CI. apply FRESH. exact N. }
-    { exact (co_nodup _ _ CO). }
-    split; [exact ND|]. split; [rewrite CI; exact IN|]. split; [|apply upd_length].
-    intros x w I. apply In_upd in I. destruct I as [I|I]; [inversion I; discriminate|].
-    eapply (co_occ _ _ CO); eauto.
+    assert (NN : none_nan (upd sl (slot_index r) (tr, Some v))).
+    { intros w I. apply In_upd in I. destruct I as [I|I]; [|eapply (co_nonan _ _ CO); eauto].
+      injection I as E1 E2. rewrite (NANFAIL (eq_sym E1)) in MV. congruence. }
+    destruct tr as [t|] eqn:Etr.
+    - destruct (ids_after_write sl (slot_index r) t0 t v N T) as [ND IN].
+      { intros ->. rewrite <- CI. eapply FRESH; [reflexivity|exact N]. }
+      { exact (co_nodup _ _ CO). }
+      split; [exact ND|]. split; [|split; [exact NN|apply upd_length]].
+      intros x Hx. destruct (IN x Hx) as [H|H]; [left; rewrite CI; exact H|right; congruence].
+    - assert (t0 = None) by (destruct T; assumption). subst t0. unfold slot, tid in *.
+      rewrite (upd_same_map fst sl (slot_index r) (None, Some v) (None, None) N eq_refl).
+      split; [exact (co_nodup _ _ CO)|]. split; [|split; [exact NN|apply upd_length]].
+      intros x Hx. left. rewrite CI. exact Hx.
   Qed.
 
   Lemma binv_answer : BInv sys md b'.
   Proof.
-    destruct answer_facts as [t0 [v [N [T [MV [ND [_ [OCC LEN]]]]]]]]. cbv zeta in *.
+    destruct answer_facts as [t0 [v [N [T [MV [ND [_ [NN LEN]]]]]]]]. cbv zeta in *.
     destruct (bor_inv _ _ _ _ _ _ C R) as [E1 [E2 [E3 [_ [v' [MV' Cases]]]]]].
     rewrite MV in MV'. inversion MV'; subst v'. clear MV'. rewrite TID in Cases. cbv zeta in Cases.
-    set (sl' := upd sl (slot_index r) (Some t, Some v)) in *.
+    set (sl' := upd sl (slot_index r) (tr, Some v)) in *.
     set (rungs1 := upd (rungs b) (current_rung b) (Filled sl' lv)) in *.
     destruct (crl_inv _ _ _ C) as [Nth NC].
     assert (Lc : (current_rung b < length (rungs b))%nat) by (eapply nth_error_lt; eauto).
     assert (CO := binv_cur_ok _ _ _ _ _ B C).
-    destruct B as [B1 B2 B3 B4 B5 B6 B7].
+    destruct B as [B1 B2 B3 B4 B5 B6 B7 B8].
+    assert (NoN1 : strict = true -> forall k sl0 lv0 w, nth_error rungs1 k = Some (Filled sl0 lv0) -> ~ In (None, Some w) sl0).
+    { intros St k sl0 lv0 w Hn I. unfold rungs1 in Hn. apply nth_error_upd in Hn. destruct Hn as [[_ Hn]|[_ Hn]].
+      - inversion Hn; subst sl0 lv0. apply In_upd in I. destruct I as [I|I].
+        + injection I as Ea Eb. exact (STRICT St (eq_sym Ea)).
+        + exact (B8 St _ _ _ _ Nth I).
+      - exact (B8 St _ _ _ _ Hn I). }
     assert (Sys1 : map entry_shape rungs1 = sys).
     { unfold rungs1. rewrite (upd_same_map entry_shape _ _ _ _ Nth); [exact B1|]. simpl. rewrite LEN. reflexivity. }
     assert (Len1 : length rungs1 = length (rungs b)) by apply upd_length.
@@ -754,14 +821,8 @@ Section Answer.
     assert (Fut1 : forall k e, (current_rung b < k)%nat -> nth_error rungs1 k = Some e -> exists n lv0, e = Future n lv0).
     { intros k e Hk. unfold rungs1. rewrite nth_error_upd_neq by lia. apply B5. exact Hk. }
     assert (Full : is_full sl' (first_free_pos b) = true -> full_rung sl').
-    { intro F. destruct (is_full_spec _ _ F) as [_ Occ]. split.
-      - apply Forall_forall. intros [x [w|]] I; [|exfalso; apply (Occ _ I); reflexivity].
-        destruct x as [x|]; [exists x, w; reflexivity|]. exfalso. apply (OCC None w I). reflexivity.
-      - rewrite (all_some_map (map fst sl')).
-        + apply nodup_map_Some. exact ND.
-        + intros x Hx. apply in_map_iff in Hx. destruct Hx as [[x' [w|]] [<- I]]; simpl.
-          * eapply OCC; eauto.
-          * exfalso. apply (Occ _ I). reflexivity. }
+    { intro F. destruct (is_full_spec _ _ F) as [_ Occ]. split; [|split; [exact ND|exact NN]].
+      apply Forall_forall. exact Occ. }
     destruct Cases as [[F [-> _]]|[[F [L [-> _]]]|[F [nl [ms [vals [top [rem [N2 [OV [G [-> _]]]]]]]]]]]].
     - (* rung not complete *)
       constructor; cbn [rungs current_rung first_free_pos bmode].
@@ -778,6 +839,7 @@ Section Answer.
         * rewrite LEN. exact (co_ffp _ _ CO).
         * apply (not_full_spec sl' (first_free_pos b)); auto. rewrite LEN. exact (co_ffp _ _ CO).
       + intros Hc. rewrite ?upd_length in *. lia.
+      + exact NoN1.
     - (* last rung complete: the bracket is complete *)
       constructor; cbn [rungs current_rung first_free_pos bmode].
       + exact Sys1.
@@ -789,6 +851,7 @@ Section Answer.
       + intros k e Hk Hn. apply nth_error_lt in Hn. rewrite ?upd_length in *. lia.
       + intros Hc. rewrite ?upd_length in *. lia.
       + reflexivity.
+      + exact NoN1.
     - (* rung complete: promotion into the next rung *)
       assert (N2' : nth_error (rungs b) (S (current_rung b)) = Some (Future nl ms)).
       { unfold rungs1 in N2. rewrite nth_error_upd_neq in N2 by lia. exact N2. }
@@ -800,11 +863,11 @@ Section Answer.
       assert (nl < length sl)%nat by (eapply Dec; eauto).
       assert (1 <= nl)%nat by (eapply Pos; eauto).
       destruct (occupied_values_some _ _ OV) as [MF LV].
-      destruct (Full F) as [_ NDf].
-      destruct (get_top_list_spec _ _ _ _ _ G) as [LT [PT _]].
-      { rewrite MF. exact NDf. } { rewrite LV, ?upd_length. lia. }
-      assert (NDt : NoDup top).
-      { eapply nodup_app_l. eapply Permutation_NoDup; [apply Permutation_sym; exact PT|]. rewrite MF. exact NDf. }
+      destruct (get_top_list_sub _ _ _ _ _ G) as [LT [rest' PT]].
+      { rewrite LV, ?upd_length. lia. }
+      assert (NDt : NoDup (somes top)).
+      { apply somes_perm in PT. unfold tid in *. rewrite somes_app in PT. eapply nodup_app_l.
+        eapply Permutation_NoDup; [apply Permutation_sym; exact PT|]. rewrite MF. exact ND. }
       set (newr := map (fun t1 : tid => (t1, @None mval)) top).
       assert (L2 : (S (current_rung b) < length rungs1)%nat) by (eapply nth_error_lt; eauto).
       constructor; cbn [rungs current_rung first_free_pos bmode].
@@ -823,21 +886,24 @@ Section Answer.
         * lia.
         * intros pos s _ Hs. apply Snd. eapply nth_error_In; eauto.
         * destruct top as [|x top']; [simpl in LT; lia|]. exists 0%nat, x. reflexivity.
-        * intros x w I. apply Snd in I. discriminate.
-        * unfold newr. rewrite map_map. simpl. rewrite map_id. apply nodup_somes. exact NDt.
-      + rewrite ?upd_length in *. lia.
+        * intros w I. apply Snd in I. discriminate.
+        * unfold newr. rewrite map_map. simpl. rewrite map_id. exact NDt.
+      + intros Hc. rewrite ?upd_length in *. lia.
+      + intros St k sl0 lv0 w Hn I. apply nth_error_upd in Hn. destruct Hn as [[_ Hn]|[_ Hn]].
+        * inversion Hn; subst sl0 lv0. unfold newr in I. apply in_map_iff in I. destruct I as [x [I _]]. discriminate.
+        * exact (NoN1 St _ _ _ _ Hn I).
   Qed.
 
-  (* the trial ids of the (new) current rung come from the old one, plus t *)
-  Lemma cur_ids_answer : forall x, In x (cur_ids b') -> In x (cur_ids b) \/ x = t.
+  (* the trial ids of the (new) current rung come from the old one, plus the trial written *)
+  Lemma cur_ids_answer : forall x, In x (cur_ids b') -> In x (cur_ids b) \/ tr = Some x.
   Proof.
-    destruct answer_facts as [t0 [v [N [T [MV [ND [IN [OCC LEN]]]]]]]]. cbv zeta in *.
+    destruct answer_facts as [t0 [v [N [T [MV [ND [IN [NN LEN]]]]]]]]. cbv zeta in *.
     destruct (bor_inv _ _ _ _ _ _ C R) as [E1 [E2 [E3 [_ [v' [MV' Cases]]]]]].
     rewrite MV in MV'. inversion MV'; subst v'. clear MV'. rewrite TID in Cases. cbv zeta in Cases.
     destruct (crl_inv _ _ _ C) as [Nth NC].
     assert (Lc : (current_rung b < length (rungs b))%nat) by (eapply nth_error_lt; eauto).
-    assert (N1 : nth_error (upd (rungs b) (current_rung b) (Filled (upd sl (slot_index r) (Some t, Some v)) lv))
-                           (current_rung b) = Some (Filled (upd sl (slot_index r) (Some t, Some v)) lv))
+    assert (N1 : nth_error (upd (rungs b) (current_rung b) (Filled (upd sl (slot_index r) (tr, Some v)) lv))
+                           (current_rung b) = Some (Filled (upd sl (slot_index r) (tr, Some v)) lv))
       by (apply nth_error_upd_eq; exact Lc).
     intros x Hx.
     destruct Cases as [[F [-> _]]|[[F [L [-> _]]]|[F [nl [ms [vals [top [rem [N2 [OV [G [-> _]]]]]]]]]]]];
@@ -848,16 +914,18 @@ Section Answer.
       + contradiction.
     - rewrite nth_error_upd_eq in Hx by (eapply nth_error_lt; eauto).
       rewrite map_map in Hx. simpl in Hx. rewrite map_id in Hx. apply somes_In in Hx.
-      destruct (occupied_values_some _ _ OV) as [MF _].
-      unfold get_top_list in G. inversion G as [[Top Rem]]. clear G Rem.
+      destruct (occupied_values_some _ _ OV) as [MF LV].
+      destruct (get_top_list_sub _ _ _ _ _ G) as [_ [rest' PT]].
+      { destruct (check_rungs_spec _ CK) as [_ [_ Dec]].
+        assert (N2' : nth_error (rungs b) (S (current_rung b)) = Some (Future nl ms)).
+        { rewrite nth_error_upd_neq in N2 by lia. exact N2. }
+        assert (nl < length sl)%nat.
+        { eapply (Dec (current_rung b)).
+          - rewrite <- (bi_sys _ _ _ B), nth_error_map, Nth. reflexivity.
+          - rewrite <- (bi_sys _ _ _ B), nth_error_map, N2'. reflexivity. }
+        rewrite LV, ?upd_length. lia. }
       assert (Hv : In (Some x) (map fst vals)).
-      { destruct (Nat.leb nl (length (valid_entries vals))).
-        + rewrite <- Top in Hx. apply in_map_iff in Hx. destruct Hx as [[x' w] [E I]]. simpl in E. subst x'.
-          apply in_firstn in I. eapply Permutation_in in I; [|apply sort_stable_perm].
-          apply valid_entries_In in I. apply (in_map fst) in I. exact I.
-        + rewrite <- Top in Hx. apply in_app_or in Hx.
-          eapply Permutation_in; [apply valid_invalid_perm|]. apply in_or_app.
-          destruct Hx as [Hx|Hx]; [left; exact Hx|right; eapply in_firstn; exact Hx]. }
+      { eapply Permutation_in; [exact PT|]. apply in_or_app. left. exact Hx. }
       apply IN. apply somes_In. rewrite MF in Hv. exact Hv.
   Qed.
 End Answer.
@@ -1141,10 +1209,14 @@ Proof.
   assert (CK : check_rungs (nth (bid mod length rss) rss []) = true) by (apply CKs, mod_lt_len, NE).
   assert (Bb := ic_b _ _ _ _ _ I _ _ Nb).
   assert (TID : trial_id r = Some t) by exact T.
-  assert (FRESH : nth_error sl (slot_index r) = Some (None, None) -> ~ In t (cur_ids b)).
-  { intro X. simpl in X. rewrite E4 in X. inversion X; subst t0. eapply K; eauto. }
-  assert (Bb' := binv_answer _ _ _ _ _ _ _ _ _ CK Bb C R TID FRESH).
-  assert (CIA := cur_ids_answer _ _ _ _ _ _ _ _ _ CK Bb C R TID FRESH).
+  assert (FRESH : forall t', Some t = Some t' -> nth_error sl (slot_index r) = Some (None, None) -> ~ In t' (cur_ids b)).
+  { intros t' Et X. inversion Et; subst t'. simpl in X. rewrite E4 in X. inversion X; subst t0. eapply K; eauto. }
+  assert (NANF : Some t = None -> metric_val r = Some NaN) by discriminate.
+  assert (STR : strict = true -> Some t <> None) by (intros _; discriminate).
+  assert (Bb' := binv_answer _ _ _ _ _ _ _ _ _ CK Bb C R TID FRESH NANF STR).
+  assert (CIA0 := cur_ids_answer _ _ _ _ _ _ _ _ _ CK Bb C R TID FRESH NANF STR).
+  assert (CIA : forall x, In x (cur_ids b') -> In x (cur_ids b) \/ x = t).
+  { intros x Hx. destruct (CIA0 x Hx) as [H|H]; [left; exact H|right; congruence]. }
   assert (Telse : forall j b2, j <> bid -> nth_error bs j = Some b2 -> ~ In t (cur_ids b2)).
   { intros j b2 NEq Nj. destruct E5 as [->| ->]; [eapply K; eauto|].
     assert (In t (cur_ids b)) by (eapply in_cur_ids; eauto).
@@ -1220,6 +1292,89 @@ Proof.
       assert (X := nodup_Zkeys_functional _ _ _ _ I4 Hx Hin). inversion X; subst. congruence.
 Qed.
 
+(* Lemma C': the searcher delivers no config for the slot just handed out (trial id None):
+   the slot is reported as failed (NaN) right away, no trial becomes pending *)
+Lemma core_fail_slot : forall rss md bs P n i b sl lv b' out,
+  strict = false ->
+  rss_ok rss -> InvCore rss md bs P n -> nth_error bs i = Some b ->
+  current_rung_and_level b = Ok (sl, lv) -> nth_error sl (first_free_pos b) = Some (None, None) ->
+  bracket_on_result (bump b) (mkSIR (current_rung b) lv (first_free_pos b) None (Some NaN)) = Ok (b', out) ->
+  InvCore rss md (upd bs i b') P n.
+Proof.
+  intros rss md bs P n i b sl lv b' out NS [NE CKs] I Nb C Ns R.
+  set (r := mkSIR (current_rung b) lv (first_free_pos b) None (Some NaN)) in *.
+  assert (Li : (i < length bs)%nat) by (eapply nth_error_lt; eauto).
+  assert (CK : check_rungs (nth (i mod length rss) rss []) = true) by (apply CKs, mod_lt_len, NE).
+  assert (Bb := ic_b _ _ _ _ _ I _ _ Nb).
+  assert (Ls : (first_free_pos b < length sl)%nat) by (eapply nth_error_lt; eauto).
+  assert (Bu := binv_bump _ _ _ _ _ Bb C Ls).
+  assert (Cu : current_rung_and_level (bump b) = Ok (sl, lv)) by (rewrite crl_bump; exact C).
+  assert (TID : trial_id r = None) by reflexivity.
+  assert (FRESH : forall t', @None Z = Some t' -> nth_error sl (slot_index r) = Some (None, None) -> ~ In t' (cur_ids (bump b)))
+    by (intros; discriminate).
+  assert (NANF : @None Z = None -> metric_val r = Some NaN) by reflexivity.
+  assert (STR : strict = true -> @None Z <> None) by (rewrite NS; discriminate).
+  assert (Bb' := binv_answer _ _ _ _ _ _ _ _ _ CK Bu Cu R TID FRESH NANF STR).
+  assert (CIA0 := cur_ids_answer _ _ _ _ _ _ _ _ _ CK Bu Cu R TID FRESH NANF STR).
+  assert (CIA : forall x, In x (cur_ids b') -> In x (cur_ids b)).
+  { intros x Hx. destruct (CIA0 x Hx) as [H|H]; [exact H|discriminate]. }
+  destruct (bor_inv _ _ _ _ _ _ Cu R) as [_ [_ [_ [_ [v' [MV' Cases]]]]]].
+  simpl in MV'. inversion MV'; subst v'. clear MV'. cbv zeta in Cases. simpl in Cases.
+  set (sl' := upd sl (first_free_pos b) (@None Z, Some NaN)) in *.
+  destruct (crl_inv _ _ _ C) as [Nth _].
+  assert (Lc : (current_rung b < length (rungs b))%nat) by (eapply nth_error_lt; eauto).
+  assert (Shape : (is_full sl' (S (first_free_pos b)) = false /\ current_rung_and_level b' = Ok (sl', lv) /\
+                   first_free_pos b' = S (first_free_pos b) /\ current_rung b' = current_rung b)
+                  \/ (is_full sl' (S (first_free_pos b)) = true /\ first_free_pos b' = 0%nat)).
+  { destruct Cases as [[F [-> _]]|[[F [L [-> _]]]|[F [nl [ms [vals [top [rem [_ [_ [_ [-> _]]]]]]]]]]]].
+    - left. split; [exact F|]. split; [|split; reflexivity]. apply crl_of_nth. cbn [rungs current_rung].
+      apply nth_error_upd_eq. exact Lc.
+    - right. auto.
+    - right. auto. }
+  assert (Get : forall j bj', nth_error (upd bs i b') j = Some bj' ->
+                (j = i /\ bj' = b') \/ (j <> i /\ nth_error bs j = Some bj')).
+  { intros j bj' H. apply nth_error_upd in H. destruct H as [[<- ->]|[N H]]; [left; auto|right; split; [congruence|exact H]]. }
+  assert (Sl'pos : nth_error sl' (first_free_pos b) = Some (None, Some NaN)).
+  { unfold sl'. apply nth_error_upd_eq. exact Ls. }
+  assert (Knew : forall t2, (forall j b'', nth_error bs j = Some b'' -> ~ In t2 (cur_ids b'')) ->
+                 forall j bj', nth_error (upd bs i b') j = Some bj' -> ~ In t2 (cur_ids bj')).
+  { intros t2 K2 j bj' Hj Hx. destruct (Get _ _ Hj) as [[-> ->]|[_ Hj']]; [|eapply K2; eauto].
+    eapply K2; [exact Nb|]. apply CIA. exact Hx. }
+  destruct I as [I1 I2 I3 I4 I5 I6 I7 I8]. constructor; auto.
+  - intros j bj' H. destruct (Get _ _ H) as [[-> ->]|[_ H']]; auto.
+  - intros j bj' x H Hx. destruct (Get _ _ H) as [[-> ->]|[_ H']]; [|eauto]. eapply I2; [exact Nb|]. apply CIA. exact Hx.
+  - intros j1 j2 b1 b2 x NEq H1 H2 Hx1 Hx2.
+    destruct (Get _ _ H1) as [[-> ->]|[N1 H1']]; destruct (Get _ _ H2) as [[-> ->]|[N2 H2']].
+    + congruence.
+    + exact (I3 i j2 b b2 x (not_eq_sym N2) Nb H2' (CIA _ Hx1) Hx2).
+    + exact (I3 j1 i b1 b x N1 H1' Nb Hx1 (CIA _ Hx2)).
+    + exact (I3 _ _ _ _ _ NEq H1' H2' Hx1 Hx2).
+  - intros t2 bid2 s2 H.
+    destruct (I6 _ _ _ H) as [[b3 [sl3 [lv3 [t3 [N3 [C3 [F1 [F2 [F3 [F4 [F5 K3]]]]]]]]]]] T3 M3].
+    constructor; auto.
+    destruct (Nat.eq_dec bid2 i) as [->|NEq].
+    + rewrite Nb in N3. inversion N3; subst b3. rewrite C in C3. inversion C3; subst sl3 lv3.
+      assert (Sl2 : nth_error sl' (slot_index s2) = Some (t3, None)).
+      { unfold sl'. rewrite nth_error_upd_neq by lia. exact F4. }
+      destruct Shape as [[F [C' [FF CR]]]|[F _]].
+      * exists b', sl', lv, t3. repeat split; auto; try congruence; try lia.
+        { apply nth_error_upd_eq. exact Li. }
+        intros Z0. apply Knew. exact (K3 Z0).
+      * exfalso. destruct (is_full_spec _ _ F) as [_ Occ]. apply nth_error_In in Sl2.
+        apply (Occ _ Sl2). reflexivity.
+    + exists b3, sl3, lv3, t3. repeat split; auto.
+      { rewrite nth_error_upd_neq by congruence. exact N3. }
+      intros Z0. apply Knew. exact (K3 Z0).
+  - intros j bj' sl2 lv2 pos t2 H C2 Hp Hn. destruct (Get _ _ H) as [[-> ->]|[NEq H']].
+    + destruct Shape as [[F [C' [FF CR]]]|[F FF]]; [|lia].
+      rewrite C' in C2. inversion C2; subst sl2 lv2.
+      assert (NEp : pos <> first_free_pos b).
+      { intros ->. unfold slot, tid in *. rewrite Sl'pos in Hn. discriminate. }
+      unfold sl' in Hn. rewrite nth_error_upd_neq in Hn by congruence.
+      apply (I8 i b sl lv pos t2 Nb C); [lia|exact Hn].
+    + eapply I8; eauto.
+Qed.
+
 (* ======================================================================== *)
 (* Part 5: bracket manager and scheduler shell                               *)
 (* ======================================================================== *)
@@ -1239,6 +1394,13 @@ Record Inv (rss : list rung_system) (md : mode) (st : shell) : Prop := mkInv {
           is_bracket_complete b = false;
   iv_core : InvCore rss md (m_brackets (s_mgr st)) (s_pending st) (s_ntrials st) }.
 
+Lemma mkInv' : forall rss md bs offs p P rem n,
+  offs = map (fun j => (j mod length rss)%nat) (seq 0 (length bs)) -> (p < length bs)%nat ->
+  (forall j b, nth_error bs j = Some b -> (j < p)%nat -> is_bracket_complete b = true) ->
+  (forall b, nth_error bs p = Some b -> is_bracket_complete b = false) ->
+  InvCore rss md bs P n -> Inv rss md (mkS (mkM rss md bs offs p) P rem n).
+Proof. intros. constructor; auto. Qed.
+
 Lemma nfs_spec : forall sys md b, BInv sys md b ->
   (next_free_slot b = Ok (b, None) /\ has_free_slot b = false) \/
   (exists sl lv t0, current_rung_and_level b = Ok (sl, lv) /\
@@ -1254,24 +1416,29 @@ Proof.
   right. exists sl, lv, t0. auto.
 Qed.
 
-Lemma try_spec : forall md bs ids,
-  (forall i, In i ids -> exists b sys, nth_error bs i = Some b /\ BInv sys md b) ->
-  (try_brackets bs ids = Ok None /\
-   forall i b, In i ids -> nth_error bs i = Some b -> has_free_slot b = false) \/
-  (exists i b sl lv t0, In i ids /\ nth_error bs i = Some b /\ current_rung_and_level b = Ok (sl, lv) /\
+(* for bracket_id in range(p, p + len): the FIRST bracket with a free slot gets the job *)
+Lemma try_spec_seq : forall md bs len p,
+  (forall i, (p <= i < p + len)%nat -> exists b sys, nth_error bs i = Some b /\ BInv sys md b) ->
+  (try_brackets bs (seq p len) = Ok None /\
+   forall i b, (p <= i < p + len)%nat -> nth_error bs i = Some b -> has_free_slot b = false) \/
+  (exists i b sl lv t0, (p <= i < p + len)%nat /\ nth_error bs i = Some b /\
+     current_rung_and_level b = Ok (sl, lv) /\
      nth_error sl (first_free_pos b) = Some (t0, None) /\ has_free_slot b = true /\
-     try_brackets bs ids =
+     (forall j bj, (p <= j < i)%nat -> nth_error bs j = Some bj -> has_free_slot bj = false) /\
+     try_brackets bs (seq p len) =
        Ok (Some (upd bs i (bump b), i, mkSIR (current_rung b) lv (first_free_pos b) t0 None))).
 Proof.
-  intros md bs. induction ids as [|i ids IH]; intro H; simpl.
-  - left. split; [reflexivity|]. intros i b [].
-  - destruct (H i (or_introl eq_refl)) as [b [sys [Nb Bb]]]. rewrite Nb.
+  intros md bs. induction len as [|len IH]; intros p H; simpl.
+  - left. split; [reflexivity|]. intros i b Hi. lia.
+  - destruct (H p) as [b [sys [Nb Bb]]]; [lia|]. rewrite Nb.
     destruct (nfs_spec _ _ _ Bb) as [[E HF]|[sl [lv [t0 [C [N [HF E]]]]]]]; rewrite E.
-    + destruct IH as [[E2 A]|[i2 [b2 [sl2 [lv2 [t2 [I2 [N2 [C2 [S2 [HF2 E2]]]]]]]]]]].
-      * intros j Hj. apply H. right. exact Hj.
-      * left. split; [exact E2|]. intros j bj [<-|Hj] Nj; [congruence|eauto].
-      * right. exists i2, b2, sl2, lv2, t2. repeat split; auto.
-    + right. exists i, b, sl, lv, t0. repeat split; auto.
+    + destruct (IH (S p)) as [[E2 A]|[i2 [b2 [sl2 [lv2 [t2 [I2 [N2 [C2 [S2 [HF2 [Low E2]]]]]]]]]]]].
+      * intros j Hj. apply H. lia.
+      * left. split; [exact E2|]. intros j bj Hj Nj. destruct (Nat.eq_dec j p) as [->|NE]; [congruence|].
+        apply (A j); [lia|exact Nj].
+      * right. exists i2, b2, sl2, lv2, t2. repeat split; auto; try lia.
+        intros j bj Hj Nj. destruct (Nat.eq_dec j p) as [->|NE]; [congruence|]. apply (Low j); [lia|exact Nj].
+    + right. exists p, b, sl, lv, t0. repeat split; auto; try lia. intros j bj Hj. lia.
 Qed.
 
 Lemma nfs_new : forall sys md, check_rungs sys = true ->
@@ -1289,6 +1456,10 @@ Proof.
   exists (repeat (None, None) (S size)), lv. repeat split.
 Qed.
 
+Lemma complete_new_bracket : forall sys md, check_rungs sys = true ->
+  is_bracket_complete (new_bracket sys md) = false.
+Proof. intros sys md CK. destruct (nfs_new sys md CK) as [_ [_ [_ [_ [X _]]]]]. exact X. Qed.
+
 Lemma seq_snoc : forall n, seq 0 (S n) = seq 0 n ++ [n].
 Proof. intro n. rewrite seq_S. reflexivity. Qed.
 
@@ -1298,93 +1469,19 @@ Proof.
   destruct (Z.eqb k t) eqn:E; [apply Z.eqb_eq in E; tauto|]. apply IH. tauto.
 Qed.
 
-(* ---- a request for work --------------------------------------------------- *)
-Lemma suggest_inv : forall rss md st, rss_ok rss -> Inv rss md st ->
-  exists st' sg bid s m',
-    suggest st true = Ok (st', sg) /\ Inv rss md st' /\
-    next_job (s_mgr st) = Ok (m', (bid, s)) /\ s_mgr st' = m' /\
-    (m_primary (s_mgr st) <= bid)%nat /\
-    (* a new bracket is opened exactly when no open bracket has a free slot *)
-    ((length (m_brackets m') = length (m_brackets (s_mgr st)) /\ (bid < length (m_brackets (s_mgr st)))%nat /\
-      (exists b, nth_error (m_brackets (s_mgr st)) bid = Some b /\ has_free_slot b = true))
-     \/ (length (m_brackets m') = S (length (m_brackets (s_mgr st))) /\ bid = length (m_brackets (s_mgr st)) /\
-         forall j b, (m_primary (s_mgr st) <= j)%nat -> nth_error (m_brackets (s_mgr st)) j = Some b ->
-                     has_free_slot b = false)) /\
-    (* the job is a slot of the rung the bracket is filling *)
-    (exists b', nth_error (m_brackets m') bid = Some b' /\ rung_index s = current_rung b' /\
-                is_bracket_complete b' = false).
+(* the sanity assert of _create_new_bracket never fires *)
+Lemma create_ok : forall rss md bs offs p,
+  offs = map (fun j => (j mod length rss)%nat) (seq 0 (length bs)) ->
+  create_new_bracket (mkM rss md bs offs p) =
+    Ok (mkM rss md (bs ++ [new_bracket (nth (length bs mod length rss) rss []) md])
+            (offs ++ [(length bs mod length rss)%nat]) p, length bs) /\
+  offs ++ [(length bs mod length rss)%nat] =
+    map (fun j => (j mod length rss)%nat) (seq 0 (length (bs ++ [new_bracket (nth (length bs mod length rss) rss []) md]))).
 Proof.
-  intros rss md [[rs md0 bs offs p] P rem n] OK I.
-  destruct I as [I1 I2 I3 I4 I5 I6 I7]. cbn [s_mgr s_pending s_ntrials s_removable m_rs m_mode m_brackets m_offsets m_primary] in *.
-  subst rs md0. destruct OK as [NE CKs].
-  assert (OK : rss_ok rss) by (split; assumption).
-  unfold suggest, next_job. cbn [s_mgr s_pending s_ntrials s_removable m_rs m_mode m_brackets m_offsets m_primary].
-  destruct (try_spec md bs (seq p (length bs - p))) as [[E NoFree]|[i [b [sl [lv [t0 [Ii [Nb [C [Ns [HF E]]]]]]]]]]].
-  { intros i Hi. apply in_seq in Hi. destruct (nth_error bs i) as [b|] eqn:Nb.
-    - exists b, (nth (i mod length rss) rss []). split; [reflexivity|]. eapply ic_b; eauto.
-    - apply nth_error_None in Nb. lia. }
-  - (* no open bracket accepts a job: a new bracket *)
-    rewrite E. unfold create_new_bracket. cbn [s_mgr m_rs m_mode m_brackets m_offsets m_primary].
-    set (sys := nth (length bs mod length rss) rss []).
-    assert (CK : check_rungs sys = true) by (apply CKs, mod_lt_len, NE).
-    set (nb := new_bracket sys md).
-    rewrite nth_error_app2 by lia. rewrite Nat.sub_diag. cbn [nth_error].
-    destruct (nfs_new sys md CK) as [sl [lv [C [Ns [NC Enfs]]]]]. fold nb in C, Ns, NC, Enfs. rewrite Enfs.
-    assert (Core1 := core_new_bracket _ _ _ _ _ OK I7). fold sys nb in Core1.
-    assert (Nnb : nth_error (bs ++ [nb]) (length bs) = Some nb).
-    { rewrite nth_error_app2 by lia. rewrite Nat.sub_diag. reflexivity. }
-    assert (LK : lookup n P = None).
-    { apply lookup_not_in. intro H. apply in_map_iff in H. destruct H as [[k j] [Ek H]]. simpl in Ek. subst k.
-      apply (ic_klt _ _ _ _ _ I7) in H. lia. }
-    cbn [trial_id rung_index level slot_index metric_val]. rewrite LK. cbn [is_none].
-    assert (Core2 := core_hand_out _ _ _ _ _ (n + 1)%Z _ _ _ _ _ _ n Core1 Nnb C Ns
-                       (or_introl (conj eq_refl (conj eq_refl eq_refl)))).
-    eexists _, _, _, _, _. split; [reflexivity|]. split; [|split; [reflexivity|split; [reflexivity|split; [lia|split]]]].
-    + constructor; cbn [s_mgr s_pending s_ntrials m_rs m_mode m_brackets m_offsets m_primary set_brackets]; auto.
-      * rewrite I3, upd_length, app_length. simpl. rewrite Nat.add_1_r, seq_snoc, map_app. reflexivity.
-      * rewrite upd_length, app_length. simpl. lia.
-      * intros j bj H Hj. rewrite nth_error_upd_neq in H by lia. rewrite nth_error_app1 in H by lia. eauto.
-      * intros bj H. rewrite nth_error_upd_neq in H by lia. rewrite nth_error_app1 in H by lia. eauto.
-    + right. cbn [m_brackets set_brackets]. rewrite upd_length, app_length. simpl. split; [lia|]. split; [reflexivity|].
-      intros j bj Hj Nj. eapply NoFree; eauto. apply in_seq. apply nth_error_lt in Nj. lia.
-    + exists (bump nb). cbn [m_brackets set_brackets]. split; [apply nth_error_upd_eq; rewrite app_length; simpl; lia|].
-      split; [reflexivity|exact NC].
-  - (* an open bracket has a free slot *)
-    rewrite E. apply in_seq in Ii.
-    assert (Li : (i < length bs)%nat) by (eapply nth_error_lt; eauto).
-    destruct (crl_inv _ _ _ C) as [_ NC].
-    assert (Fin : exists b', nth_error (upd bs i (bump b)) i = Some b' /\ current_rung b = current_rung b' /\
-                             is_bracket_complete b' = false).
-    { exists (bump b). split; [apply nth_error_upd_eq; exact Li|]. split; [reflexivity|exact NC]. }
-    assert (PrimInv : forall P' n', InvCore rss md (upd bs i (bump b)) P' n' ->
-              Inv rss md (mkS (set_brackets (mkM rss md bs offs p) (upd bs i (bump b))) P' rem n')).
-    { intros P' n' Core. constructor; cbn [s_mgr s_pending s_ntrials m_rs m_mode m_brackets m_offsets m_primary set_brackets]; auto.
-      - rewrite upd_length. exact I3.
-      - rewrite upd_length. exact I4.
-      - intros j bj H Hj. apply nth_error_upd in H. destruct H as [[<- ->]|[_ H]]; [|eauto].
-        rewrite <- (I5 _ _ Nb Hj). reflexivity.
-      - intros bj H. apply nth_error_upd in H. destruct H as [[<- ->]|[_ H]]; [|eauto]. exact NC. }
-    cbn [trial_id rung_index level slot_index metric_val]. destruct t0 as [t|].
-    + (* a promoted trial is resumed *)
-      assert (LK : lookup t P = None).
-      { apply lookup_not_in. eapply resume_not_pending; eauto. }
-      rewrite LK. cbn [is_none].
-      assert (Core2 := core_hand_out _ _ _ _ _ n _ _ _ _ _ _ t I7 Nb C Ns (or_intror (conj eq_refl eq_refl))).
-      eexists _, _, _, _, _. split; [reflexivity|]. split; [apply PrimInv; exact Core2|].
-      split; [reflexivity|split; [reflexivity|split; [lia|split]]].
-      * left. cbn [m_brackets set_brackets]. rewrite upd_length. split; [reflexivity|]. split; [exact Li|]. eauto.
-      * exact Fin.
-    + (* a new trial is started *)
-      assert (LK : lookup n P = None).
-      { apply lookup_not_in. intro H. apply in_map_iff in H. destruct H as [[k j] [Ek H]]. simpl in Ek. subst k.
-        apply (ic_klt _ _ _ _ _ I7) in H. lia. }
-      rewrite LK. cbn [is_none].
-      assert (Core2 := core_hand_out _ _ _ _ _ (n + 1)%Z _ _ _ _ _ _ n I7 Nb C Ns
-                         (or_introl (conj eq_refl (conj eq_refl eq_refl)))).
-      eexists _, _, _, _, _. split; [reflexivity|]. split; [apply PrimInv; exact Core2|].
-      split; [reflexivity|split; [reflexivity|split; [lia|split]]].
-      * left. cbn [m_brackets set_brackets]. rewrite upd_length. split; [reflexivity|]. split; [exact Li|]. eauto.
-      * exact Fin.
+  intros rss md bs offs p E. unfold create_new_bracket. cbn [m_brackets m_offsets m_rs m_mode m_primary].
+  replace (Nat.eqb (length bs) (length offs)) with true.
+  2:{ symmetry. apply Nat.eqb_eq. rewrite E, map_length, seq_length. reflexivity. }
+  split; [reflexivity|]. rewrite E, app_length. simpl. rewrite Nat.add_1_r, seq_snoc, map_app. reflexivity.
 Qed.
 
 Lemma advance_spec : forall fuel bs p last,
@@ -1406,64 +1503,32 @@ Proof.
   - split; [lia|]. split; [intros; lia|]. intros b0 N0 C0. congruence.
 Qed.
 
-Lemma complete_new_bracket : forall sys md, check_rungs sys = true ->
-  is_bracket_complete (new_bracket sys md) = false.
-Proof. intros sys md CK. destruct (nfs_new sys md CK) as [_ [_ [_ [_ [X _]]]]]. exact X. Qed.
-
-Lemma mkInv' : forall rss md bs offs p P rem n,
+(* mgr.on_result once the bracket has accepted the result: primary advance, maybe a new bracket *)
+Lemma mgr_on_result_inv : forall rss md bs offs p bid b r b' out P' rem' n,
+  rss_ok rss ->
   offs = map (fun j => (j mod length rss)%nat) (seq 0 (length bs)) -> (p < length bs)%nat ->
-  (forall j b, nth_error bs j = Some b -> (j < p)%nat -> is_bracket_complete b = true) ->
-  (forall b, nth_error bs p = Some b -> is_bracket_complete b = false) ->
-  InvCore rss md bs P n -> Inv rss md (mkS (mkM rss md bs offs p) P rem n).
-Proof. intros. constructor; auto. Qed.
-
-(* ---- a pending job is answered -------------------------------------------- *)
-Lemma answer_inv : forall rss md st t bid s v, rss_ok rss -> Inv rss md st ->
-  lookup t (s_pending st) = Some (bid, s) ->
-  exists st', shell_on_result st bid (mkSIR (rung_index s) (level s) (slot_index s) (trial_id s) (Some v)) = Ok st' /\
-    Inv rss md (mkS (s_mgr st') (remove_key t (s_pending st')) (s_removable st') (s_ntrials st')) /\
-    (exists b' sl' lv', nth_error (m_brackets (s_mgr st')) bid = Some b' /\
-        nth_error (rungs b') (rung_index s) = Some (Filled sl' lv') /\
-        nth_error sl' (slot_index s) = Some (Some t, Some v)).
+  (forall j bj, nth_error bs j = Some bj -> (j < p)%nat -> is_bracket_complete bj = true) ->
+  (forall bj, nth_error bs p = Some bj -> is_bracket_complete bj = false) ->
+  (p <= bid)%nat -> nth_error bs bid = Some b -> bracket_on_result b r = Ok (b', out) ->
+  InvCore rss md (upd bs bid b') P' n ->
+  exists m', mgr_on_result (mkM rss md bs offs p) bid r = Ok (m', out) /\
+    Inv rss md (mkS m' P' rem' n) /\ nth_error (m_brackets m') bid = Some b' /\
+    (m_brackets m' = upd bs bid b' \/
+     m_brackets m' = upd bs bid b' ++ [new_bracket (nth (length bs mod length rss) rss []) md]).
 Proof.
-  intros rss md [[rs md0 bs offs p] P rem n] t bid s v OK I LK.
-  destruct I as [I1 I2 I3 I4 I5 I6 I7].
-  cbn [s_mgr s_pending s_ntrials s_removable m_rs m_mode m_brackets m_offsets m_primary] in *.
-  subst rs md0. assert (OK' := OK). destruct OK' as [NE CKs].
-  apply lookup_In in LK.
-  destruct (ic_p _ _ _ _ _ I7 _ _ _ LK) as [[b [sl [lv [t0 [Nb [C [E1 [E2 [E3 [E4 [E5 K]]]]]]]]]]] T M].
-  destruct (crl_inv _ _ _ C) as [Nth NC].
+  intros rss md bs offs p bid b r b' out P' rem' n OK I3 I4 I5 I6 Pb Nb R Core.
+  assert (OK' := OK). destruct OK' as [NE CKs].
   assert (Lb : (bid < length bs)%nat) by (eapply nth_error_lt; eauto).
-  assert (Pb : (p <= bid)%nat).
-  { destruct (Nat.le_gt_cases p bid) as [X|X]; [exact X|]. rewrite (I5 _ _ Nb X) in NC. discriminate. }
-  assert (Bb := ic_b _ _ _ _ _ I7 _ _ Nb).
-  set (r := mkSIR (rung_index s) (level s) (slot_index s) (trial_id s) (Some v)).
-  destruct (bor_ok b r sl lv t0 v C E1 E2 E3 E4) as [b' [out R]].
-  { unfold r. cbn [trial_id]. rewrite T. exact E5. } { reflexivity. }
-  { intros e Ne. eapply (bi_fut _ _ _ Bb); [|exact Ne]. lia. }
-  assert (Core := core_answer _ _ _ _ _ _ _ _ _ _ _ _ OK I7 LK Nb R).
-  (* the answered slot *)
-  assert (Slot : exists sl' lv', nth_error (rungs b') (rung_index s) = Some (Filled sl' lv') /\
-                                 nth_error sl' (slot_index s) = Some (Some t, Some v)).
-  { destruct (bor_inv _ _ _ _ _ _ C R) as [_ [_ [_ [_ [v' [MV' Cases]]]]]].
-    simpl in MV'. inversion MV'; subst v'. cbv zeta in Cases. simpl trial_id in Cases. rewrite T in Cases.
-    simpl slot_index in Cases. rewrite E1.
-    assert (Lc : (current_rung b < length (rungs b))%nat) by (eapply nth_error_lt; eauto).
-    exists (upd sl (slot_index s) (Some t, Some v)), lv.
-    split; [|apply nth_error_upd_eq; eapply nth_error_lt; eauto].
-    destruct Cases as [[_ [-> _]]|[[_ [_ [-> _]]]|[_ [nl [ms [vals [top [rem0 [_ [_ [_ [-> _]]]]]]]]]]]];
-      cbn [rungs]; try (rewrite nth_error_upd_neq by lia); apply nth_error_upd_eq; exact Lc. }
-  destruct Slot as [sl' [lv' [S1 S2]]].
   assert (CompOther : forall j bj, j <> bid -> nth_error (upd bs bid b') j = Some bj -> nth_error bs j = Some bj).
   { intros j bj NEq H. rewrite nth_error_upd_neq in H by congruence. exact H. }
-  unfold shell_on_result, mgr_on_result.
-  cbn [s_mgr s_pending s_ntrials s_removable m_rs m_mode m_brackets m_offsets m_primary].
+  unfold mgr_on_result. cbn [m_rs m_mode m_brackets m_offsets m_primary].
   replace (Nat.leb p bid && Nat.ltb bid (length bs)) with true
     by (symmetry; apply andb_true_iff; split; [apply Nat.leb_le|apply Nat.ltb_lt]; lia).
-  cbn [negb]. rewrite Nb. fold r. rewrite R.
+  cbn [negb]. rewrite Nb, R.
   set (bs' := upd bs bid b') in *.
   assert (Lbs' : length bs' = length bs) by apply upd_length.
   assert (Nb' : nth_error bs' bid = Some b') by (apply nth_error_upd_eq; exact Lb).
+  assert (Offs' : offs = map (fun j => (j mod length rss)%nat) (seq 0 (length bs'))) by (rewrite Lbs'; exact I3).
   destruct (Nat.eqb bid p) eqn:Ep.
   - apply Nat.eqb_eq in Ep. subst bid.
     destruct (advance_spec (length bs) bs' p (length bs - 1)) as [A [Bc Cl]]; try lia.
@@ -1476,272 +1541,31 @@ Proof.
       - eapply I5; [|exact X]. apply CompOther; [lia|exact Nj].
       - eapply Bc; [|exact Nj]. lia. }
     destruct (is_bracket_complete bp) eqn:Cp.
-    + (* all brackets are complete: open a new one and make it primary *)
-      assert (p' = length bs - 1)%nat by (eapply Cl; eauto).
-      unfold create_new_bracket. cbn [set_brackets set_primary m_rs m_mode m_brackets m_offsets m_primary].
-      assert (Core2 := core_new_bracket _ _ _ _ _ OK Core). fold bs' in Core2.
-      eexists. split; [reflexivity|]. cbn [s_mgr s_pending s_removable s_ntrials]. split.
-      * apply mkInv'; cbn [m_rs m_mode m_brackets m_offsets m_primary set_brackets set_primary].
-        -- rewrite I3, app_length, Lbs'. simpl. rewrite Nat.add_1_r, seq_snoc, map_app. reflexivity.
+    + assert (p' = length bs - 1)%nat by (eapply Cl; eauto).
+      destruct (create_ok rss md bs' offs p' Offs') as [CE CO]. rewrite CE. rewrite Lbs' in *.
+      assert (Core2 := core_new_bracket _ _ _ _ _ OK Core). fold bs' in Core2. rewrite Lbs' in Core2.
+      eexists. split; [reflexivity|]. cbn [set_primary m_rs m_mode m_brackets m_offsets m_primary]. split; [|split].
+      * apply mkInv'.
+        -- exact CO.
         -- rewrite app_length. simpl. lia.
         -- intros j bj Hn Hj. rewrite nth_error_app1 in Hn by lia.
            destruct (Nat.eq_dec j p') as [->|NEq]; [congruence|]. eapply Below; eauto. lia.
-        -- intros bj Hn. rewrite nth_error_app2 in Hn by lia. rewrite Nat.sub_diag in Hn. simpl in Hn.
+        -- intros bj Hn. rewrite nth_error_app2 in Hn by lia. rewrite Lbs', Nat.sub_diag in Hn. simpl in Hn.
            inversion Hn. apply complete_new_bracket. apply CKs, mod_lt_len, NE.
         -- exact Core2.
-      * exists b', sl', lv'. split; [|auto]. cbn [m_brackets set_primary set_brackets]. rewrite nth_error_app1 by lia. exact Nb'.
-    + eexists. split; [reflexivity|]. cbn [s_mgr s_pending s_removable s_ntrials]. split.
-      * apply mkInv'; cbn [m_rs m_mode m_brackets m_offsets m_primary set_brackets set_primary].
-        -- unfold bs' in *; rewrite ?upd_length in *; exact I3.
-        -- lia.
-        -- exact Below.
-        -- intros bj Hn. congruence.
-        -- exact Core.
-      * exists b', sl', lv'. auto.
-  - apply Nat.eqb_neq in Ep. eexists. split; [reflexivity|]. cbn [s_mgr s_pending s_removable s_ntrials]. split.
-    + apply mkInv'; cbn [m_rs m_mode m_brackets m_offsets m_primary set_brackets set_primary].
-      * unfold bs' in *; rewrite ?upd_length in *; exact I3.
-      * lia.
+      * rewrite nth_error_app1 by lia. exact Nb'.
+      * right. reflexivity.
+    + eexists. split; [reflexivity|]. cbn [set_primary m_rs m_mode m_brackets m_offsets m_primary]. split; [|split].
+      * apply mkInv'; auto; try lia. intros bj Hn. congruence.
+      * exact Nb'.
+      * left. reflexivity.
+  - apply Nat.eqb_neq in Ep. eexists. split; [reflexivity|].
+    cbn [set_brackets m_rs m_mode m_brackets m_offsets m_primary]. split; [|split].
+    + apply mkInv'; auto; try lia.
       * intros j bj Hn Hj. eapply I5; [|exact Hj]. apply CompOther; [lia|exact Hn].
       * intros bj Hn. apply I6. apply CompOther; [lia|exact Hn].
-      * exact Core.
-    + exists b', sl', lv'. auto.
+    + exact Nb'.
+    + left. reflexivity.
 Qed.
 
-(* ---- every event keeps the invariant and is accepted ----------------------- *)
-Lemma step_inv : forall rss md st o, rss_ok rss -> Inv rss md st ->
-  exists st', step st o = Ok st' /\ Inv rss md st'.
-Proof.
-  intros rss md st o OK I. destruct o as [|t below v|t|]; simpl.
-  - destruct (suggest_inv _ _ _ OK I) as [st' [sg [bid [s [m' [E [I' _]]]]]]]. rewrite E. eauto.
-  - unfold on_trial_result. destruct (lookup t (s_pending st)) as [[bid s]|] eqn:LK; [|eauto].
-    assert (LK' := lookup_In _ _ _ LK).
-    destruct (ic_p _ _ _ _ _ (iv_core _ _ _ I) _ _ _ LK') as [_ T _].
-    rewrite T. replace (tid_eqb (Some t) (Some t)) with true by (symmetry; apply tid_eqb_eq; reflexivity).
-    cbn [negb]. destruct below as [|k].
-    + replace (level s - Z.of_nat 0)%Z with (level s) by lia.
-      rewrite Z.leb_refl, Z.eqb_refl. cbn [negb].
-      destruct (answer_inv _ _ _ _ _ _ v OK I LK) as [st' [E [I' _]]]. rewrite T in E. rewrite E. eauto.
-    + replace (Z.leb (level s) (level s - Z.of_nat (S k))) with false by (symmetry; apply Z.leb_gt; lia). eauto.
-  - unfold on_trial_error, report_as_failed. destruct (lookup t (s_pending st)) as [[bid s]|] eqn:LK; [|eauto].
-    destruct (answer_inv _ _ _ _ _ _ NaN OK I LK) as [st' [E [I' _]]]. rewrite E. eauto.
-  - eexists. split; [reflexivity|]. destruct I as [I1 I2 I3 I4 I5 I6 I7]. constructor; auto.
-Qed.
-
-Lemma init_inv : forall rss md, check_bracket_rungs rss = true ->
-  exists st, shell_init rss md = Ok st /\ Inv rss md st.
-Proof.
-  intros rss md CK. assert (OK := check_bracket_rungs_ok _ CK). destruct OK as [NE CKs].
-  unfold shell_init, mgr_init. rewrite CK. unfold create_new_bracket. cbn [m_brackets m_rs m_mode m_offsets m_primary length].
-  eexists. split; [reflexivity|].
-  assert (Z0 : (0 mod length rss = 0)%nat) by (apply Nat.mod_0_l; destruct rss; simpl; [congruence|lia]).
-  set (sys := nth (0 mod length rss) rss []).
-  assert (CKsys : check_rungs sys = true) by (apply CKs, mod_lt_len, NE).
-  assert (Core0 : InvCore rss md [] [] 0).
-  { constructor; try (intros; match goal with H : nth_error [] ?j = Some _ |- _ => destruct j; discriminate end);
-      try (intros; contradiction). constructor. }
-  assert (Core1 := core_new_bracket _ _ _ _ _ (conj NE CKs) Core0). cbn [length app] in Core1.
-  constructor; cbn [s_mgr s_pending s_ntrials m_rs m_mode m_brackets m_offsets m_primary set_primary app length]; auto.
-  - intros j b H Hj. lia.
-  - intros b H. simpl in H. inversion H. apply complete_new_bracket. exact CKsys.
-Qed.
-
-Lemma run_inv : forall rss md ops st, rss_ok rss -> Inv rss md st ->
-  exists st', run st ops = Ok st' /\ Inv rss md st'.
-Proof.
-  intros rss md. induction ops as [|o ops IH]; intros st OK I; simpl; [eauto|].
-  destruct (step_inv _ _ _ o OK I) as [st1 [E I1]]. rewrite E. apply IH; assumption.
-Qed.
-
-Theorem run_from_inv : forall rss md ops, check_bracket_rungs rss = true ->
-  exists st, run_from rss md ops = Ok st /\ Inv rss md st.
-Proof.
-  intros rss md ops CK. unfold run_from. destruct (init_inv rss md CK) as [st0 [E I]]. rewrite E.
-  apply run_inv; [apply check_bracket_rungs_ok; exact CK|exact I].
-Qed.
-
-(* ======================================================================== *)
-(* Part 6: the statements of C05 on reachable states                         *)
-(* ======================================================================== *)
-
-Theorem no_error : forall rss md ops, check_bracket_rungs rss = true ->
-  exists st, run_from rss md ops = Ok st.
-Proof. intros rss md ops CK. destruct (run_from_inv rss md ops CK) as [st [E _]]. eauto. Qed.
-
-Lemma reach_inv : forall rss md ops st, check_bracket_rungs rss = true ->
-  run_from rss md ops = Ok st -> Inv rss md st /\ rss_ok rss.
-Proof.
-  intros rss md ops st CK E. destruct (run_from_inv rss md ops CK) as [st' [E' I]].
-  rewrite E in E'. inversion E'; subst. split; [exact I|apply check_bracket_rungs_ok; exact CK].
-Qed.
-
-Lemma nth_error_map_seq : forall (f : nat -> nat) n j, (j < n)%nat -> nth_error (map f (seq 0 n)) j = Some (f j).
-Proof.
-  intros f n j H. rewrite nth_error_map. rewrite (nth_error_nth' (seq 0 n) 0%nat) by (rewrite seq_length; exact H).
-  rewrite seq_nth by exact H. reflexivity.
-Qed.
-
-Theorem offsets_cycle : forall rss md ops st, check_bracket_rungs rss = true ->
-  run_from rss md ops = Ok st ->
-  length (m_offsets (s_mgr st)) = length (m_brackets (s_mgr st)) /\
-  forall j b, nth_error (m_brackets (s_mgr st)) j = Some b ->
-    nth_error (m_offsets (s_mgr st)) j = Some (j mod length rss)%nat /\
-    map entry_shape (rungs b) = nth (j mod length rss) rss [] /\ bmode b = md.
-Proof.
-  intros rss md ops st CK E. destruct (reach_inv _ _ _ _ CK E) as [I _].
-  rewrite (iv_off _ _ _ I). split; [rewrite map_length, seq_length; reflexivity|].
-  intros j b Nb. split; [apply (nth_error_map_seq (fun j0 => (j0 mod length rss)%nat)); eapply nth_error_lt; eauto|].
-  assert (B := ic_b _ _ _ _ _ (iv_core _ _ _ I) _ _ Nb). split; [exact (bi_sys _ _ _ B)|exact (bi_mode _ _ _ B)].
-Qed.
-
-Theorem rung_filled_by_distinct : forall rss md ops st, check_bracket_rungs rss = true ->
-  run_from rss md ops = Ok st ->
-  forall j b, nth_error (m_brackets (s_mgr st)) j = Some b ->
-  forall k, (k < current_rung b)%nat ->
-    exists sl lv, nth_error (rungs b) k = Some (Filled sl lv) /\
-      nth_error (nth (j mod length rss) rss []) k = Some (length sl, lv) /\
-      Forall (fun s => exists t v, s = (Some t, Some v)) sl /\ NoDup (map fst sl).
-Proof.
-  intros rss md ops st CK E j b Nb k Hk. destruct (reach_inv _ _ _ _ CK E) as [I _].
-  assert (B := ic_b _ _ _ _ _ (iv_core _ _ _ I) _ _ Nb).
-  destruct (bi_done _ _ _ B k Hk) as [sl [lv [N [F ND]]]]. exists sl, lv. split; [exact N|].
-  split; [|split; assumption]. rewrite <- (bi_sys _ _ _ B), nth_error_map, N. reflexivity.
-Qed.
-
-(* the rung being filled: configured size, distinct trials, slots beyond first_free_pos untouched *)
-Theorem current_rung_shape : forall rss md ops st, check_bracket_rungs rss = true ->
-  run_from rss md ops = Ok st ->
-  forall j b sl lv, nth_error (m_brackets (s_mgr st)) j = Some b ->
-    current_rung_and_level b = Ok (sl, lv) ->
-    nth_error (nth (j mod length rss) rss []) (current_rung b) = Some (length sl, lv) /\
-    NoDup (somes (map fst sl)) /\ (first_free_pos b <= length sl)%nat /\
-    (exists pos t, nth_error sl pos = Some (t, None)).
-Proof.
-  intros rss md ops st CK E j b sl lv Nb C. destruct (reach_inv _ _ _ _ CK E) as [I _].
-  assert (B := ic_b _ _ _ _ _ (iv_core _ _ _ I) _ _ Nb). assert (CO := binv_cur_ok _ _ _ _ _ B C).
-  destruct (crl_inv _ _ _ C) as [N _]. split.
-  - rewrite <- (bi_sys _ _ _ B), nth_error_map, N. reflexivity.
-  - split; [exact (co_nodup _ _ CO)|]. split; [exact (co_ffp _ _ CO)|exact (co_open _ _ CO)].
-Qed.
-
-Theorem never_blocks : forall rss md ops st, check_bracket_rungs rss = true ->
-  run_from rss md ops = Ok st ->
-  exists m' bid s, next_job (s_mgr st) = Ok (m', (bid, s)) /\
-    (m_primary (s_mgr st) <= bid)%nat /\
-    ((length (m_brackets m') = length (m_brackets (s_mgr st)) /\ (bid < length (m_brackets (s_mgr st)))%nat /\
-      (exists b, nth_error (m_brackets (s_mgr st)) bid = Some b /\ has_free_slot b = true))
-     \/ (length (m_brackets m') = S (length (m_brackets (s_mgr st))) /\ bid = length (m_brackets (s_mgr st)) /\
-         forall j b, (m_primary (s_mgr st) <= j)%nat -> nth_error (m_brackets (s_mgr st)) j = Some b ->
-                     has_free_slot b = false)).
-Proof.
-  intros rss md ops st CK E. destruct (reach_inv _ _ _ _ CK E) as [I OK].
-  destruct (suggest_inv _ _ _ OK I) as [st' [sg [bid [s [m' [_ [_ [NJ [_ [Pb [Cases _]]]]]]]]]]].
-  exists m', bid, s. auto.
-Qed.
-
-Theorem promote_after_complete : forall rss md ops st m' bid s, check_bracket_rungs rss = true ->
-  run_from rss md ops = Ok st -> next_job (s_mgr st) = Ok (m', (bid, s)) ->
-  exists b', nth_error (m_brackets m') bid = Some b' /\ rung_index s = current_rung b' /\
-    is_bracket_complete b' = false /\
-    forall k, (k < rung_index s)%nat ->
-      exists sl lv, nth_error (rungs b') k = Some (Filled sl lv) /\
-                    Forall (fun x => exists t v, x = (Some t, Some v)) sl.
-Proof.
-  intros rss md ops st m' bid s CK E NJ. destruct (reach_inv _ _ _ _ CK E) as [I OK].
-  destruct (suggest_inv _ _ _ OK I) as [st' [sg [bid0 [s0 [m0 [_ [I' [NJ0 [Em [_ [_ [b' [Nb' [Er NC]]]]]]]]]]]]]].
-  rewrite NJ in NJ0. injection NJ0 as -> -> ->. exists b'. split; [exact Nb'|]. split; [exact Er|]. split; [exact NC|].
-  intros k Hk. rewrite <- Em in Nb'.
-  assert (B := ic_b _ _ _ _ _ (iv_core _ _ _ I') _ _ Nb').
-  destruct (bi_done _ _ _ B k) as [sl [lv [N [F _]]]]; [lia|]. eauto.
-Qed.
-
-Lemma In_lookup : forall t j (P : list (Z * job)), NoDup (map fst P) -> In (t, j) P -> lookup t P = Some j.
-Proof.
-  induction P as [|[k w] P IH]; intros N H; simpl in *; [contradiction|]. inversion N; subst.
-  destruct H as [H|H].
-  - inversion H; subst. rewrite Z.eqb_refl. reflexivity.
-  - destruct (Z.eqb k t) eqn:E; [|auto]. apply Z.eqb_eq in E. subst k. exfalso. apply H2.
-    apply (in_map fst) in H. exact H.
-Qed.
-
-Theorem pending_slots_have_trials : forall rss md ops st, check_bracket_rungs rss = true ->
-  run_from rss md ops = Ok st ->
-  forall j b sl lv pos t0, nth_error (m_brackets (s_mgr st)) j = Some b ->
-    current_rung_and_level b = Ok (sl, lv) -> (pos < first_free_pos b)%nat ->
-    nth_error sl pos = Some (t0, None) ->
-    exists t s, lookup t (s_pending st) = Some (j, s) /\ slot_index s = pos /\
-                rung_index s = current_rung b /\ level s = lv /\ trial_id s = Some t.
-Proof.
-  intros rss md ops st CK E j b sl lv pos t0 Nb C Hp Hn. destruct (reach_inv _ _ _ _ CK E) as [I _].
-  assert (Core := iv_core _ _ _ I).
-  destruct (ic_p4 _ _ _ _ _ Core _ _ _ _ _ _ Nb C Hp Hn) as [t [s [Hin Es]]].
-  exists t, s. split; [apply In_lookup; [exact (ic_keys _ _ _ _ _ Core)|exact Hin]|]. split; [exact Es|].
-  destruct (ic_p _ _ _ _ _ Core _ _ _ Hin) as [[b2 [sl2 [lv2 [t2 [N2 [C2 [E1 [E2 [E3 _]]]]]]]]] T _].
-  rewrite Nb in N2. inversion N2; subst b2. rewrite C in C2. inversion C2; subst. auto.
-Qed.
-
-Theorem trial_error_fills_slot : forall rss md ops st t bid s, check_bracket_rungs rss = true ->
-  run_from rss md ops = Ok st -> lookup t (s_pending st) = Some (bid, s) ->
-  exists st', on_trial_error st t = Ok st' /\ lookup t (s_pending st') = None /\
-    exists b' sl' lv', nth_error (m_brackets (s_mgr st')) bid = Some b' /\
-      nth_error (rungs b') (rung_index s) = Some (Filled sl' lv') /\
-      nth_error sl' (slot_index s) = Some (Some t, Some NaN).
-Proof.
-  intros rss md ops st t bid s CK E LK. destruct (reach_inv _ _ _ _ CK E) as [I OK].
-  destruct (answer_inv _ _ _ _ _ _ NaN OK I LK) as [st' [Ea [_ Slot]]].
-  unfold on_trial_error, report_as_failed. rewrite LK, Ea. eexists. split; [reflexivity|].
-  cbn [s_pending s_mgr]. split; [apply lookup_remove|exact Slot].
-Qed.
-
-(* the trials put into the next rung are the top list of the completed one, and the
-   hypotheses of get_top_list_spec hold for it *)
-Theorem promoted_are_top : forall rss md ops st t bid s v b b' rem, check_bracket_rungs rss = true ->
-  run_from rss md ops = Ok st -> lookup t (s_pending st) = Some (bid, s) ->
-  nth_error (m_brackets (s_mgr st)) bid = Some b ->
-  bracket_on_result b (mkSIR (rung_index s) (level s) (slot_index s) (trial_id s) (Some v)) = Ok (b', Some rem) ->
-  exists sl lv vals nl ms top,
-    current_rung_and_level b = Ok (sl, lv) /\
-    occupied_values (upd sl (slot_index s) (Some t, Some v)) = Some vals /\
-    nth_error (rungs b) (S (current_rung b)) = Some (Future nl ms) /\
-    get_top_list md vals nl = (top, rem) /\
-    current_rung_and_level b' = Ok (map (fun x => (x, None)) top, ms) /\
-    current_rung b' = S (current_rung b) /\
-    NoDup (map fst vals) /\ (nl <= length vals)%nat.
-Proof.
-  intros rss md ops st t bid s v b b' rem CK E LK Nb R. destruct (reach_inv _ _ _ _ CK E) as [I [NE CKs]].
-  assert (Core := iv_core _ _ _ I). apply lookup_In in LK.
-  destruct (ic_p _ _ _ _ _ Core _ _ _ LK) as [[b2 [sl [lv [t0 [N2 [C [E1 [E2 [E3 [E4 [E5 K]]]]]]]]]]] T M].
-  rewrite Nb in N2. inversion N2; subst b2. clear N2.
-  assert (Bb := ic_b _ _ _ _ _ Core _ _ Nb).
-  assert (CKb : check_rungs (nth (bid mod length rss) rss []) = true) by (apply CKs, mod_lt_len, NE).
-  set (r := mkSIR (rung_index s) (level s) (slot_index s) (trial_id s) (Some v)) in *.
-  assert (FRESH : nth_error sl (slot_index r) = Some (None, None) -> ~ In t (cur_ids b)).
-  { intro X. simpl in X. rewrite E4 in X. inversion X; subst t0. eapply K; eauto. }
-  destruct (answer_facts _ _ _ _ _ _ _ _ _ Bb C R T FRESH) as [t1 [v1 [_ [_ [MV [ND [_ [OCC LEN]]]]]]]].
-  simpl in MV. inversion MV; subst v1. cbv zeta in *. simpl slot_index in *.
-  destruct (bor_inv _ _ _ _ _ _ C R) as [_ [_ [_ [_ [v' [MV' Cases]]]]]].
-  simpl in MV'. inversion MV'; subst v'. cbv zeta in Cases. simpl trial_id in Cases. rewrite T in Cases. simpl slot_index in Cases.
-  destruct (crl_inv _ _ _ C) as [Nth _].
-  assert (Lc : (current_rung b < length (rungs b))%nat) by (eapply nth_error_lt; eauto).
-  destruct Cases as [[_ [_ X]]|[[_ [_ [_ X]]]|[F [nl [ms [vals [top [rem0 [N2 [OV [G [Eb X]]]]]]]]]]]]; try discriminate.
-  inversion X; subst rem0. rewrite nth_error_upd_neq in N2 by lia.
-  exists sl, lv, vals, nl, ms, top. split; [exact C|]. split; [exact OV|]. split; [exact N2|].
-  rewrite (bi_mode _ _ _ Bb) in G. split; [exact G|].
-  destruct (occupied_values_some _ _ OV) as [MF LV].
-  destruct (is_full_spec _ _ F) as [_ Occ].
-  unfold slot, tid in *. split; [|split; [|split]].
-  - rewrite Eb. apply crl_of_nth. cbn [rungs current_rung]. apply nth_error_upd_eq. rewrite upd_length.
-    apply nth_error_lt in N2. exact N2.
-  - rewrite Eb. reflexivity.
-  - rewrite MF. rewrite (all_some_map (map fst (upd sl (slot_index s) (Some t, Some v)))).
-    + apply nodup_map_Some. exact ND.
-    + intros x Hx. apply in_map_iff in Hx. destruct Hx as [[x' [w|]] [<- Hi]]; simpl.
-      * eapply OCC; eauto.
-      * exfalso. apply (Occ _ Hi). reflexivity.
-  - destruct (check_rungs_spec _ CKb) as [_ [_ Dec]].
-    assert (S0 : nth_error (nth (bid mod length rss) rss []) (current_rung b) = Some (length sl, lv)).
-    { rewrite <- (bi_sys _ _ _ Bb), nth_error_map, Nth. reflexivity. }
-    assert (S1 : nth_error (nth (bid mod length rss) rss []) (S (current_rung b)) = Some (nl, ms)).
-    { rewrite <- (bi_sys _ _ _ Bb), nth_error_map, N2. reflexivity. }
-    assert (nl < length sl)%nat by (eapply Dec; eauto). rewrite LV, LEN. lia.
-Qed.
+End Strict.
